@@ -9,6 +9,7 @@ package main
 
 import (
 	"bytes"
+	"encoding/json"
 	"flag"
 	"fmt"
 	"go/ast"
@@ -819,6 +820,8 @@ func emitDecryptSwitch(out *bytes.Buffer, tp *pkgFiles, tenv constEnv) {
 func main() {
 	repo := flag.String("repo", "/repo", "path of the gosaml2 working tree")
 	outPath := flag.String("out", "", "output .v file (default stdout)")
+	funcsPath := flag.String("funcs", "", "output .v file of the translated function bodies (default: none)")
+	litPath := flag.String("literals", "", "output JSON file listing every string literal of the non-test source (default: none)")
 	flag.Parse()
 
 	root := parseDir(*repo)
@@ -863,15 +866,66 @@ func main() {
 	emitAdvertised(&out, root, tenv)
 	emitDecryptSwitch(&out, types, tenv)
 
+	if *funcsPath != "" {
+		writeIfChanged(*funcsPath, emitFuncs(root, types, env, tenv))
+	}
+	if *litPath != "" {
+		writeIfChanged(*litPath, collectLiterals(root, types, uuid))
+	}
 	if *outPath == "" {
 		os.Stdout.Write(out.Bytes())
 		return
 	}
-	old, err := os.ReadFile(*outPath)
-	if err == nil && bytes.Equal(old, out.Bytes()) {
-		return // unchanged: keep mtime so make does not rebuild
+	writeIfChanged(*outPath, out.Bytes())
+}
+
+// collectLiterals lists the distinct string literals of the source (struct tags excluded): the check compares them with
+// the committed baseline and hands the new ones to the harness generators as candidate field values, so that a change
+// keyed on a particular value is searched with that value.
+func collectLiterals(pkgs ...*pkgFiles) []byte {
+	set := map[string]bool{}
+	for _, p := range pkgs {
+		for _, fn := range sortedFiles(p) {
+			ast.Inspect(p.files[fn], func(n ast.Node) bool {
+				switch x := n.(type) {
+				case *ast.Field:
+					// skip the tag, keep walking the type
+					if x.Type != nil {
+						ast.Inspect(x.Type, func(ast.Node) bool { return true })
+					}
+					return false
+				case *ast.ImportSpec:
+					return false
+				case *ast.BasicLit:
+					if x.Kind == token.STRING {
+						if s, err := strconv.Unquote(x.Value); err == nil {
+							set[s] = true
+						}
+					}
+				}
+				return true
+			})
+		}
 	}
-	if err := os.WriteFile(*outPath, out.Bytes(), 0o644); err != nil {
+	var all []string
+	for s := range set {
+		all = append(all, s)
+	}
+	sort.Strings(all)
+	data, err := json.MarshalIndent(all, "", " ")
+	if err != nil {
+		fail("literals: %v", err)
+	}
+	return append(data, '\n')
+}
+
+// unchanged output keeps its mtime so that make does not rebuild
+func writeIfChanged(path string, data []byte) {
+	old, err := os.ReadFile(path)
+	if err == nil && bytes.Equal(old, data) {
+		return
+	}
+	if err := os.WriteFile(path, data, 0o644); err != nil {
 		fail("write: %v", err)
 	}
 }
